@@ -310,9 +310,17 @@ impl Gen {
             if i > 0 {
                 s.push(';');
             }
-            let m = *self.rng.pick(&[
+            let mut m = *self.rng.pick(&[
                 1u64, 25, 2004, 9, 1000, 1002, 1003, 1005, 1006, 1, 25, 7, 12, 1004, 47, 1049, 6, 47, 2004, 1006, 1002,
             ]);
+            // the numbers next to the implemented ones, and any other number, are NOT implemented
+            match self.rng.below(14) {
+                0 => m += 1,
+                1 => m = m.saturating_sub(1),
+                2 => m = self.rng.range(0, 2100),
+                3 => m = *self.rng.pick(&[1001u64, 1004, 1007, 1015, 1016, 1047, 1048, 1050, 2, 3, 4, 5, 8, 10, 24, 26, 46, 48, 2003, 2005, 2026, 65535]),
+                _ => {}
+            }
             s.push_str(&m.to_string());
         }
         s.push(if self.rng.chance(1, 2) { 'h' } else { 'l' });
@@ -362,7 +370,7 @@ impl Gen {
                 out.push(b';');
             }
             if i == 0 && self.rng.chance(4, 5) {
-                out.extend_from_slice(self.rng.pick(&["0", "1", "2", "4", "52", "00", ""]).as_bytes());
+                out.extend_from_slice(self.rng.pick(&["0", "1", "2", "0", "1", "2", "4", "52", "00", "", "3", "10", "02", "+1", "01", "1 ", " 2", "22", "l", "0x1", "２"]).as_bytes());
             } else {
                 let n = self.rng.range(0, 6);
                 for _ in 0..n {
